@@ -184,6 +184,14 @@ def step(ins, regs):
         return algopy.expm(regs[ins[1]] * ins[2])
     if op == 'abs':
         return abs(regs[ins[1]])
+    if op == 'iop':            # t = copy(a); t op= b   (forward only: the tracer has no in-place arithmetic)
+        t = regs[ins[2]].copy()
+        b = regs[ins[3]] if ins[4] == 'reg' else ins[3]
+        t = {'add': operator.iadd, 'sub': operator.isub, 'mul': operator.imul, 'div': operator.itruediv}[ins[1]](t, b)
+        return t
+    if op == 'solvec':         # solve with a constant (plain ndarray) operand on either side
+        a, c, side = regs[ins[1]], ins[2], ins[3]
+        return algopy.solve(a, c) if side == 'r' else algopy.solve(c, a)
     if op == 'umax':
         a = regs[ins[1]]
         return np.max(a) if isinstance(a, np.ndarray) else algopy.UTPM.max(a)
@@ -321,6 +329,21 @@ def precond(ins, regs):
         if op == 'minmax':
             a, b = np.asarray(regs[ins[2]]), np.asarray(regs[ins[3]])
             return a.shape == b.shape and not _is_cplx(a) and not _is_cplx(b) and (KINKS_OK[0] or bool(np.all(np.abs(a - b) >= 0.05)))
+        if op == 'iop':
+            a = np.asarray(regs[ins[2]])
+            b = np.asarray(regs[ins[3]] if ins[4] == 'reg' else ins[3])
+            if _is_cplx(a) or _is_cplx(b) or a.ndim == 0:
+                return False
+            if np.broadcast_shapes(a.shape, b.shape) != a.shape:
+                return False
+            return ins[1] != 'div' or bool(np.all(np.abs(b) >= 0.2))
+        if op == 'solvec':
+            a, c = np.asarray(regs[ins[1]]), np.asarray(ins[2])
+            if _is_cplx(a) or a.ndim != 2 or c.ndim != 2:
+                return False
+            if ins[3] == 'r':      # solve(A(t), C)
+                return a.shape[0] == a.shape[1] == c.shape[0] and bool(_smin(a) >= 0.2)
+            return c.shape[0] == c.shape[1] == a.shape[0]
         if op == 'umax':
             v = np.sort(np.ravel(np.asarray(regs[ins[1]])))
             return not _is_cplx(v) and v.size >= 1 and (v.size == 1 or bool(v[-1] - v[-2] >= 0.05))
@@ -368,7 +391,7 @@ def _magnitude_ok(v):
 FAMILIES_ALL = ['un', 'un', 'kink', 'special', 'unp', 'bin', 'bin', 'bcast', 'binc', 'binc', 'pow', 'neg', 'get', 'get', 'T', 'reshape',
                 'buf', 'set', 'set', 'rmw', 'rmw', 'sum', 'prod', 'trace', 'dot', 'dot', 'dotc', 'outer', 'inv', 'solve', 'det',
                 'logdet', 'qr', 'chol', 'eigh', 'svd', 'lu', 'fft', 'tile', 'diag', 'symvec']
-FAMILIES_FWD_ONLY = ['unfwd', 'minmax', 'tri', 'abs', 'expm', 'svdfull', 'umax', 'powreg']
+FAMILIES_FWD_ONLY = ['unfwd', 'minmax', 'tri', 'abs', 'expm', 'svdfull', 'umax', 'powreg', 'iop', 'solvec']
 FAMILIES_POLY = ['un', 'bin', 'bin', 'bcast', 'binc', 'binc', 'pow', 'neg', 'get', 'get', 'T', 'reshape', 'buf', 'set', 'rmw', 'sum', 'prod',
                  'trace', 'dot', 'dot', 'dotc', 'outer', 'tile', 'diag']
 
@@ -558,7 +581,7 @@ FIRST_INPUT = {'inv': 'regular', 'det': 'regular', 'logdet': 'posdet', 'solve': 
                'chol': 'square', 'eigh': 'gapsym', 'svd': 'svd', 'trace': 'matrix', 'T': 'matrix', 'diag': 'vecorsquare',
                'symvec': 'square', 'outer': 'vector', 'dot': 'vecormat', 'dotc': 'vecormat', 'prod': 'vector', 'tile': 'vecormat',
                'sum': 'vecormat', 'reshape': 'vecormat', 'get': 'vecormat', 'fft': 'vecormat', 'tri': 'matrix',
-               'expm': 'square', 'svdfull': 'svd', 'minmax': 'vecormat', 'umax': 'vector', 'kink': 'awayzero', 'abs': 'awayzero', 'pow': 'withzeros', 'special': 'unitinterval', 'unp': 'unitinterval', 'unfwd': 'unitinterval', 'dotnd': 'cube', 'eig': 'realeig', 'powreg': 'unitinterval'}
+               'expm': 'square', 'svdfull': 'svd', 'minmax': 'vecormat', 'umax': 'vector', 'kink': 'awayzero', 'abs': 'awayzero', 'pow': 'withzeros', 'special': 'unitinterval', 'unp': 'unitinterval', 'unfwd': 'unitinterval', 'dotnd': 'cube', 'eig': 'realeig', 'powreg': 'unitinterval', 'solvec': 'regular', 'iop': 'vecormat'}
 
 
 @st.composite
@@ -1054,6 +1077,49 @@ def _emit_family_impl(draw, S, fam, allow_set_broadcast=True, allow_ndim_dot=Fal
                 return False
             b = S.nreg() - 1
         return S.try_emit(['minmax', draw(st.sampled_from(['minimum', 'maximum'])), a, b])
+    if fam == 'iop':
+        a = _pick(draw, S, lambda r: real(r) and S.ndim(r) >= 1)
+        if a is None:
+            return False
+        opn = draw(st.sampled_from(['mul', 'add', 'sub', 'div', 'mul']))
+        if draw(st.integers(0, 3)) == 0:
+            return S.try_emit(['iop', opn, a, consts(draw, S.shape(a)), 'const'])
+
+        def fits(r):
+            try:
+                ok = np.broadcast_shapes(S.shape(a), S.shape(r)) == S.shape(a)
+            except ValueError:
+                return False
+            return ok and real(r) and all(precond(['iop', opn, a, r, 'reg'], S.regs[k]) for k in range(S.K))
+        # a right operand of lower rank (broadcast needed) is preferred: that is where the direction axis can get mixed up
+        b = _pick(draw, S, lambda r: fits(r) and S.ndim(r) < S.ndim(a))
+        if b is None:
+            if S.ndim(a) >= 1 and draw(st.booleans()) and S.try_emit(['get', a, 0]):
+                cand = S.nreg() - 1
+                b = cand if fits(cand) else None
+        if b is None:
+            b = _pick(draw, S, fits)
+        if b is None:
+            return False
+        return S.try_emit(['iop', opn, a, b, 'reg'])
+    if fam == 'solvec':
+        side = draw(st.sampled_from(['r', 'l']))
+        if side == 'r':
+            a = _pick(draw, S, lambda r: S.ndim(r) == 2 and S.shape(r)[0] == S.shape(r)[1] and real(r))
+            if a is None:
+                return False
+            n = S.shape(a)[0]
+            k = draw(st.sampled_from([1, 2, n]))
+            c = np.asarray(draw(gen.float_array((n, k), st.sampled_from([0.5, 1.0, 2.0, -1.0, 1.5, 0.0]), sparse=False)), dtype=float)
+        else:
+            a = _pick(draw, S, lambda r: S.ndim(r) == 2 and real(r))
+            if a is None:
+                return False
+            n = S.shape(a)[0]
+            c = draw(st.one_of(gen.well_conditioned(n), gen.pivot_forcing(n)))
+        if draw(st.booleans()):
+            c = np.asfortranarray(c)      # Fortran-ordered constant (also what a single column or a .T view is)
+        return S.try_emit(['solvec', a, c, side])
     if fam == 'umax':
         a = _pick(draw, S, lambda q: real(q) and S.ndim(q) == 1 and all(precond(['umax', q], S.regs[k]) for k in range(S.K)))  # UTPM.max: vectors only (declared)
         if a is None:
@@ -1234,7 +1300,7 @@ def features(case):
         if op in ('reshape', 'T', 'tile', 'diag', 'symvec', 'sum', 'prod', 'trace'):
             f.add(op)
         if op == 'un' and ins[1] in UN_NONLINEAR or op in ('unp', 'pow', 'powreg', 'dot', 'outer', 'inv', 'solve', 'det', 'logdet', 'prod', 'qr', 'qr_full',
-                                                          'chol_spd', 'eigh_sym', 'eigh_fun', 'svd_s', 'svd_full', 'lu', 'expm', 'eig_val') \
+                                                          'chol_spd', 'eigh_sym', 'eigh_fun', 'svd_s', 'svd_full', 'lu', 'expm', 'eig_val', 'solvec') \
                 or (op == 'bin' and ins[1] in ('mul', 'div')) or (op == 'binc' and ins[1] == 'div' and ins[4] == 'l'):
             f.add('nonlinear')
     f.add('len=%d' % min(len(prog), 12))
